@@ -491,9 +491,79 @@ def global_state(db, modules=None):
     return out
 
 
+DATA_ATTRS = ("pos", "neg", "pos_groups", "neg_groups", "matrix")
+
+
+def copy_derivations(ctx, chk, rule="R10.1"):
+    """An object derived by a SHALLOW COPY of an existing one (`x = copy.copy(self)`, then `x.pos = ...`) shares every attribute it does not
+    re-bind - also the lazily filled per-object caches computed from the data it replaces.  Each such cache (an attribute that some
+    non-constructor method of the hierarchy fills and whose filler reads the replaced data) must be re-bound on the copy in the same function.
+    (A constructor call initialises everything; a copy that keeps the data unchanged may keep the caches.)"""
+    if getattr(chk, "_copy_derivations_done", False):
+        return
+    chk._copy_derivations_done = True
+    db = ctx.db
+    n_sites = 0
+    for mi in db.modules.values():
+        for c in mi.classes.values():
+            hier = [k for m2 in db.modules.values() for k in m2.classes.values() if (c in k.mro() or k in c.mro())]
+            # lazily filled attributes of the hierarchy and what their fillers read
+            lazy = {}
+            for k in hier:
+                for mname, m in k.methods.items():
+                    if mname == "__init__":
+                        continue
+                    for node in ast.walk(m.node):
+                        tg = node.targets if isinstance(node, ast.Assign) else [node.target] if isinstance(node, ast.AnnAssign) else []
+                        for t in tg:
+                            for x in ast.walk(t):
+                                if isinstance(x, ast.Attribute) and isinstance(x.value, ast.Name) and x.value.id == "self" and isinstance(x.ctx, ast.Store) and x.attr not in DATA_ATTRS:
+                                    lazy.setdefault(x.attr, set()).update(self_reads(k, m))
+                                # dict-valued caches filled by item stores: self._cache[key] = value
+                                if isinstance(x, ast.Subscript) and isinstance(x.value, ast.Attribute) and isinstance(x.value.value, ast.Name) and x.value.value.id == "self" \
+                                        and isinstance(x.ctx, ast.Store):
+                                    lazy.setdefault(x.value.attr, set()).update(self_reads(k, m))
+            for mname, m in c.methods.items():
+                copies = set()
+                for node in ast.walk(m.node):
+                    if isinstance(node, ast.Assign) and len(node.targets) == 1 and isinstance(node.targets[0], ast.Name) and isinstance(node.value, ast.Call):
+                        f = node.value.func
+                        nm = f.attr if isinstance(f, ast.Attribute) else getattr(f, "id", None)
+                        if nm == "copy" and len(node.value.args) == 1 and isinstance(node.value.args[0], ast.Name) and node.value.args[0].id == "self":
+                            copies.add(node.targets[0].id)
+                for cp in sorted(copies):
+                    stores = set()
+                    for node in ast.walk(m.node):
+                        tg = node.targets if isinstance(node, ast.Assign) else [node.target] if isinstance(node, (ast.AnnAssign, ast.AugAssign)) else []
+                        for t in tg:
+                            for x in ast.walk(t):
+                                if isinstance(x, ast.Attribute) and isinstance(x.value, ast.Name) and x.value.id == cp and isinstance(x.ctx, ast.Store):
+                                    stores.add(x.attr)
+                        # swaps written as tuple assignment are Assign nodes too (covered); setattr(cp, "name", v):
+                        if isinstance(node, ast.Call) and getattr(node.func, "id", None) == "setattr" and len(node.args) >= 2 and isinstance(node.args[0], ast.Name) \
+                                and node.args[0].id == cp and isinstance(node.args[1], ast.Constant):
+                            stores.add(node.args[1].value)
+                    replaced = sorted(a for a in stores if a in DATA_ATTRS)
+                    if not replaced:
+                        continue
+                    n_sites += 1
+                    q = c.qualname + "." + mname
+                    kept = sorted(a for a, reads in lazy.items() if a not in stores and (set(replaced) & reads))
+                    if kept:
+                        chk.violation(rule, q, "%s:shallow-copy-keeps-cache:%s" % (mname, kept[0]),
+                                      "%s = copy.copy(self) re-binds %s but keeps the parent's self.%s (filled lazily from %s)" % (cp, ", ".join(replaced), kept[0], ", ".join(sorted(set(replaced) & lazy[kept[0]]))),
+                                      "a derived object starts with empty caches (construct it, or reset every lazily filled attribute on the copy)",
+                                      "%s:%d" % (mi.relpath, m.node.lineno))
+                    else:
+                        chk.hold(rule, "copy-derivation:%s" % q.split(".", 2)[-1], "the copy re-binds %s and every lazily filled attribute computed from them" % ", ".join(replaced), nontrivial=False)
+    if n_sites == 0:
+        chk.hold(rule, "copy-derivations", "no object is derived by a shallow copy that replaces its data", nontrivial=False)
+
+
 def global_state_rule(ctx, chk, rule="R10.1", modules=None, strict=True):
     """No state outlives a call: module-level containers written by functions (and functools caches) make results depend on the call history.
     strict: any such state is a violation; otherwise identity-keyed memos (id()/hash()/repr of an argument in the key) are violations and the rest is INCONCLUSIVE."""
+    copy_derivations(ctx, chk, rule)
     finds = global_state(ctx.db, modules)
     for mq, name, writer, line, how, ksrc in finds:
         if ksrc == "value-keyed cache of a module-level function":
